@@ -109,11 +109,15 @@ def _fill_level():
         'has the worker\'s value of every shipped attribute (values, result, executed, options, ...), keeps its own '
         'unshipped ones, gets per-action out/err position by position, and process_task_result receives the worker\'s '
         'failure.  ' +
-        ('C08_status_is_den / C08_report_is_den / C08_confluence_status / C08_confluence_report: in every reachable state '
-         'of the serial, thread and process transition systems of the run model (every schedule, every numProcess, every '
-         'set-iteration order) over graphs with task_dep and setup edges, every finished run_status and every terminal '
-         'report (success / up-to-date / ignored / failure kind) equals the denotation DenOf, which depends on the task '
-         'table and the oracle only; hence any two runs agree on every task both have reported.  ' if conf else
+        ('C08_status_is_den, C08_confluence_status, C08_complete_reports_closure, C08_exit_of_reports, '
+         'C08_confluence_partial, C08_den_computable, C08_monitors_hold: over graphs with task_dep and setup edges (after '
+         'expansion: getargs, result_dep, target->file_dep), in every reachable state of the serial, thread and process '
+         'transition systems of the run model (every schedule, every numProcess, every set-iteration order) every finished '
+         'run_status and every terminal report (success / up-to-date / ignored / failure kind) equals the denotation DenOf, '
+         'which depends on the task table and the oracle only; a complete run (no failure, or --continue) reports exactly '
+         'the denotational closure of the selection; hence two complete runs under ANY two runners/schedules report the '
+         'same tasks with the same outcomes (same save/remove DB effects) and return the same exit code; on acyclic '
+         'graphs the executable denF/denClosure/denExit evaluated by the driver are that denotation.  ' if conf else
          'The confluence half is stated (C08_confluence_full) and covered by the correspondence and the differential '
          'monitor only.  ') +
         'Tied to doit on every run: trace acceptance of every serial/thread/process run by the M1 model, denotation vs. '
@@ -121,12 +125,13 @@ def _fill_level():
         'statement itself evaluated on serial-vs-parallel real runs (outcomes, exit code, values, results, captured '
         'output, failure text, DB dump, file digests).')
     META['level_note'] = (
-        'Partial: dynamic calc_dep edges are outside the confluence theorems (C08_confluence_full stays a def); equality '
-        'of the SET of reported tasks and of the exit code between two complete runs is proved only through the per-task '
-        'agreement + C02_all_processed (closure of each run), the closure/exit equality itself is checked by (K2)/(P) on '
-        'every case.  Monitor (P): Lean predicate monC08Pair for reports+exit through the driver; the data/DB/file '
-        'comparison is a Python equality on canonical JSON.  Trusted: Lean kernel (propext/Classical.choice/Quot.sound), '
-        'doitdrv, the Python harness, pickle itself, OS process scheduling (sampled).')
+        'Partial: dynamic calc_dep edges are outside the confluence theorems (hypothesis NoCalc; C08_confluence_full '
+        'stays a def) and are covered by K1 + P only; values/results/target files are not part of the run model (their '
+        'equality across runners is the differential monitor P plus data_intact for the queue crossing).  Monitor (P): '
+        'Lean predicate monC08Pair for reports+exit through the driver; the data/DB/file comparison is a Python equality '
+        'on canonical JSON.  Open finding stale-delayed-group-result (result_dep on a delayed-created group).  Trusted: '
+        'Lean kernel (propext/Classical.choice/Quot.sound), doitdrv, the Python harness, pickle itself, OS process '
+        'scheduling (sampled).')
 
 
 _fill_level()
@@ -1228,8 +1233,8 @@ def run(ctx, scale=1.0):
         st.merge_into(ctx)
     ctx.extra['hypotheses'] = {'NoCalc+acyclic (confluence theorems / K2)': ctx.dist.get('hyp_nocalc_acyclic:True', 0),
                                'not satisfied (calc_dep present): P and K1 only': ctx.dist.get('hyp_nocalc_acyclic:False', 0)}
-    ctx.extra['partial_theorems'] = ['C08_confluence_full (dynamic calc_dep edges; closure/exit equality): def only, '
-                                     'covered by K2 + P']
+    ctx.extra['partial_theorems'] = ['C08_confluence_partial (hypothesis NoCalc); C08_confluence_full (dynamic calc_dep '
+                                     'edges) is a def only, covered by K1 + P']
 
 
 def search(ctx):
